@@ -174,7 +174,7 @@ func fmtOp(w *world, op *Op) string {
 	for _, f := range []struct {
 		on   bool
 		name string
-	}{{op.Pess, "pessimistic"}, {op.Async, "async-commit"}, {op.OnePC, "1pc"}, {op.NoWait, "nowait"}, {op.RetVals, "retvals"}, {op.KeyOnly, "keyonly"}} {
+	}{{op.Pess, "pessimistic"}, {op.Async, "async-commit"}, {op.OnePC, "1pc"}, {op.Pipe, "pipelined"}, {op.NoWait, "nowait"}, {op.RetVals, "retvals"}, {op.KeyOnly, "keyonly"}} {
 		if f.on {
 			sb.WriteString(" " + f.name)
 		}
@@ -188,7 +188,11 @@ func fmtOp(w *world, op *Op) string {
 // unexpectedErr handles a call that failed although the model says it succeeds.
 func (m *tmodel) unexpectedErr(rec *OpRec, changesState bool) {
 	if rec.Faults == 0 {
-		m.c.fail("call-failed", rec.Op.Kind, "%s failed with %q although no fault was injected while it ran", m.where(rec), rec.Err)
+		sig := rec.Op.Kind
+		if strings.HasSuffix(sig, "riter") && rec.Op.Hi == "" && !m.c.w.sc.RevUnb {
+			sig = "riter-unbounded-upper " + sig // known finding F1, demonstration modes only
+		}
+		m.c.fail("call-failed", sig, "%s failed with %q although no fault was injected while it ran", m.where(rec), rec.Err)
 	} else {
 		m.c.stats["oracle.call-failed-under-faults"]++
 	}
@@ -287,9 +291,18 @@ func (m *tmodel) apply(rec *OpRec) {
 		} else {
 			want = scanOf(m.view(t.snap, t), lo, hi, rev, op.Limit, false)
 		}
+		if op.KeyOnly {
+			// a key-only scan that had to resolve a lock on its way returns that key's value (the
+			// scanner reads the key again): only the keys are compared
+			for i := range rec.Pairs {
+				rec.Pairs[i][1] = ""
+			}
+		}
 		if !eqPairs(rec.Pairs, want) {
 			sig := op.Kind
-			if rev && hi == "" {
+			if rev && hi == "" && !w.sc.RevUnb {
+				// known finding F1 (LocateEndKey("") on a keyspace spread over several regions); only the
+				// demonstration modes generate this call in such layouts
 				sig = "riter-unbounded-upper " + sig
 			}
 			m.c.fail("scan-mismatch", sig, "%s returned %q, the model of the keyspace gives %q", m.where(rec), rec.Pairs, want)
@@ -397,7 +410,7 @@ func (m *tmodel) apply(rec *OpRec) {
 		if rec.Err != "" {
 			m.unexpectedErr(rec, false)
 		}
-	case "delrange":
+	case "delrange", "destroyrange":
 		if rec.Err != "" {
 			m.unexpectedErr(rec, true)
 			return
@@ -435,6 +448,9 @@ func (m *tmodel) checkErrKeyIn(rec *OpRec, what string, want []string) {
 			continue
 		}
 		got := ek[len(what)+1:]
+		if got == "" {
+			continue // the server did not name it (the mock leaves the primary of a write conflict empty)
+		}
 		ok := false
 		for _, k := range want {
 			ok = ok || k == got
@@ -472,7 +488,7 @@ func (c *checker) checkLocs(ks int, rec *OpRec, where string) {
 		if !ok {
 			c.fail("region-not-clipped", op.Kind, "%s: region %d [%q,%q) does not contain the key %q", where, l.ID, l.Start, l.End, key)
 		}
-		if w.sc.Static && op.Kind == "locate" {
+		if w.topo.changes == 0 && op.Kind == "locate" {
 			// nothing moves in this run: the answer is the clipped, stripped form of the one region holding the key
 			kk := w.kss[ks]
 			region, _, _, _ := w.cluster.GetRegionByKey(mocktikv.NewMvccKey(kk.enc([]byte(key))))
@@ -503,7 +519,7 @@ func (c *checker) checkLocs(ks int, rec *OpRec, where string) {
 		}
 		for i := 1; i < len(rec.Locs); i++ {
 			if rec.Locs[i].Start != rec.Locs[i-1].End {
-				if w.sc.Static {
+				if w.topo.changes == 0 {
 					c.fail("region-not-clipped", "locrange", "%s: regions %d and %d are not adjacent: [%q,%q) then [%q,%q)", where, i-1, i, rec.Locs[i-1].Start, rec.Locs[i-1].End, rec.Locs[i].Start, rec.Locs[i].End)
 				} else {
 					c.stats["oracle.locrange-gap-while-topology-moves"]++
@@ -511,7 +527,7 @@ func (c *checker) checkLocs(ks int, rec *OpRec, where string) {
 			}
 		}
 		if last := rec.Locs[len(rec.Locs)-1]; last.End != "" && (hi == "" || last.End < hi) {
-			if w.sc.Static {
+			if w.topo.changes == 0 {
 				c.fail("region-not-clipped", "locrange", "%s: the last region [%q,%q) ends before the range does", where, last.Start, last.End)
 			} else {
 				c.stats["oracle.locrange-short-while-topology-moves"]++
@@ -531,9 +547,16 @@ func (c *checker) checkScanLocks(rec *OpRec, lo, hi string, where string) {
 		}
 		return false
 	}
+	u := c.w.mon.universe[rec.Ks]
 	for _, l := range rec.Locks {
 		if !has(rec.TruthLocks[0], l) && !has(rec.TruthLocks[1], l) {
-			c.fail("lock-not-decoded", "scanlocks", "%s described the lock {key %q primary %q txn %d}; the locks of the keyspace in the store, in logical form, were %v before and %v after the call", where, l.Key, l.Primary, l.TxnID, rec.TruthLocks[0], rec.TruthLocks[1])
+			// a lock may come and go while the call runs (a request of an abandoned lock step that
+			// was still in flight); whatever it is, it must be described in logical keys
+			if !u[l.Key] || !u[l.Primary] || c.w.mon.looksEncoded([]byte(l.Key)) && !poolHas(c.w, l.Key) {
+				c.fail("lock-not-decoded", "scanlocks", "%s described the lock {key %q primary %q txn %d}, which is not a lock on logical keys of the keyspace; the locks of the keyspace in the store, in logical form, were %v before and %v after the call", where, l.Key, l.Primary, l.TxnID, rec.TruthLocks[0], rec.TruthLocks[1])
+			} else {
+				c.stats["oracle.scanlocks-transient-lock"]++
+			}
 		}
 		if !rangeHas(l.Key, lo, hi) {
 			c.fail("lock-not-decoded", "scanlocks-range", "%s returned the lock on %q, outside the range", where, l.Key)
@@ -545,6 +568,15 @@ func (c *checker) checkScanLocks(rec *OpRec, lo, hi string, where string) {
 		}
 	}
 	c.stats["probe.scanlocks.locks-described"] += len(rec.Locks)
+}
+
+func poolHas(w *world, k string) bool {
+	for _, p := range pool {
+		if string(w.key(p)) == k {
+			return true
+		}
+	}
+	return false
 }
 
 // ---------------------------------------------------------------------------------------------
